@@ -493,6 +493,9 @@ FAULTS = {
     # references to things that are defined nowhere (pint creates groups on demand internally: a definition must not)
     "group_using_undefined_group": (["@group gu using nogroup", "    gux = 2 * xm", "@end"], ("group", "gu")),
     "alias_for_undefined_unit": (["@alias nonexist = nx"], ("unit", "nx")),
+    # a block whose first rule is fine and whose second is not: refused as a whole (a living registry must not keep half of it)
+    "system_second_rule_undefined": (["@system sy3", "    xm", "    nonexist", "@end"], ("system", "sy3")),
+    "system_second_rule_not_root": (["@system sy4", "    xm", "    foo: bar", "@end"], ("system", "sy4")),
 }
 
 
@@ -504,6 +507,8 @@ def _probe(ureg, probe):
         return ureg.get_dimensionality(name)
     if kind == "group":
         return ureg.get_group(name, False).members
+    if kind == "system":
+        return (ureg.get_system(name, False).members, ureg.get_base_units("foo", system=name))
     raise ValueError(kind)
 
 
@@ -532,6 +537,7 @@ def case_fault(case, col=None):
                 if path == "late":
                     # the valid part first, the rest through load_definitions on the living registry
                     u_ = pint.UnitRegistry(list(BASE_LINES), non_int_type=T)
+                    living.append(u_)
                     u_.load_definitions(list(extra))
                     return u_
                 fn = os.path.join(work, "defs.txt")
@@ -542,11 +548,17 @@ def case_fault(case, col=None):
                     return pint.UnitRegistry(fn, non_int_type=T, cache_folder=os.path.join(work, "c"))
                 return pint.UnitRegistry(fn, non_int_type=T)
 
+            living = []
             try:
                 ureg = build()
             except RecursionError:
                 return
             except Exception:  # noqa: BLE001 - rejected at load time: what the statement asks for
+                if living and probe is not None and probe[0] == "system":
+                    # ... and the registry that refused the block does not know the system
+                    s_, r_ = attempt(_probe, living[0], probe)
+                    if s_ == "ok":
+                        raise Violation(f"refused_definition_left_residue:{fault}", f"[{path}/{nit}] {extra} was refused, yet {probe} answers {r_!r}")
                 return
             if probe is None:
                 raise Violation(f"ill_formed_definition_accepted:{fault}", f"[{path}/{nit}] the file loaded although it contains {extra}")
@@ -563,7 +575,55 @@ def case_fault(case, col=None):
         logging.disable(logging.NOTSET)
 
 
+REFUSED = ["foo = 7 * xm", "foo = 7 * xm = fo2", "newx = 2 * xm = fo", "newy = 2 * xm = _ = fooo", "@alias bar = fo", "kila- = 10", "xm = 3 * xs", "baz = 5 * xm"]
+
+
+def case_refused_redefinition(case, col=None):
+    """a registry built with on_redefinition='raise' refuses a definition that would replace an existing name, symbol or alias - and is afterwards what
+    it was: the refused definition has been given no meaning, not even for the names it would have replaced"""
+    import pint
+
+    logging.disable(logging.CRITICAL)
+    try:
+        T = env.NIT[case["nit"]]
+        ureg = pint.UnitRegistry(list(BASE_LINES), non_int_type=T, on_redefinition="raise")
+        probes = [("foo", "xm"), ("fo", "xm"), ("fooo", "xm"), ("bar", "xm / xs"), ("Kfo", "xm"), ("kilafoo", "xm"), ("baz", "foo"), ("xm", "xm")]
+
+        def battery():
+            out = []
+            for a_, b_ in probes:
+                s_, r_ = attempt(lambda: ureg.Quantity(1, a_).to(b_).magnitude)
+                out.append((a_, b_, s_, repr(r_) if s_ == "ok" else type(r_).__name__))
+            out.append(("members", sorted(ureg.get_group("ga", False).members)))
+            return out
+
+        before = battery() if case["ask_before"] else None
+        line = REFUSED[case["which"] % len(REFUSED)]
+        if col is not None:
+            col.case(("rr", line, case["nit"], case["how"], case["ask_before"]), True, sample=dict(case, line=line), cls="refused_redefinition")
+        s_, r_ = attempt((ureg.define if case["how"] == "define" else lambda l: ureg.load_definitions([l])), line)
+        if s_ == "ok":
+            raise Violation("redefinition_accepted_under_policy_raise", f"{line!r} ({case['how']}) did not raise in a registry built with on_redefinition='raise'")
+        after = battery()
+        want = before if before is not None else None
+        if want is None:
+            twin = pint.UnitRegistry(list(BASE_LINES), non_int_type=T, on_redefinition="raise")
+            ureg, keep = twin, ureg
+            want = battery()
+            ureg = keep
+        if after != want:
+            diff = [(x, y) for x, y in zip(want, after) if x != y][:3]
+            raise Violation("refused_definition_left_residue:redefinition", f"{line!r} ({case['how']}) raised {type(r_).__name__}, yet the registry changed: {diff}")
+    finally:
+        logging.disable(logging.NOTSET)
+
+
 def run_faults(task, tier, seed, col):
+    for w_ in range(len(REFUSED)):
+        for n_ in ("float", "Fraction"):
+            for h_ in ("define", "load"):
+                for ab_ in (False, True):
+                    col.run_case(lambda c: case_refused_redefinition(c, col), {"which": w_, "nit": n_, "how": h_, "ask_before": ab_})
     strat = st.builds(lambda f, p, n, pos: {"fault": f, "path": p, "nit": n, "pos": pos}, st.sampled_from(sorted(FAULTS)), st.sampled_from(["lines", "file", "cache", "late"]),
                       st.sampled_from(["float", "Fraction", "Decimal"]), st.integers(2, 9))
     # every fault x path x number type once with the statement at the end of the file (enumerated), then random positions
@@ -582,15 +642,18 @@ logging.disable(logging.CRITICAL)
 import pint
 folder, defs = sys.argv[1], sys.argv[2]
 kw = {} if folder == "-" else {"cache_folder": folder}
-reg = pint.UnitRegistry(**kw) if defs == "-" else pint.UnitRegistry(defs, **kw)
+reg = pint.UnitRegistry(**kw) if defs == "-" else (pint.UnitRegistry(open(defs[1:]).read().splitlines(), **kw) if defs.startswith("@") else pint.UnitRegistry(defs, **kw))
 units = json.load(sys.stdin)
 out = {}
-for u in units:
+def _try(f):
     try:
-        out[u] = {"compat": sorted(next(iter(x._units)) for x in reg.get_compatible_units(u)), "root": repr(reg.get_root_units(u)), "dim": repr(dict(reg.get_dimensionality(u))),
-                  "parse": repr(dict(reg.parse_units("kilo" + u + "/second")._units)), "conv": repr(reg.Quantity(3, u).to_root_units())}
+        return f()
     except Exception as e:
-        out[u] = "!" + type(e).__name__
+        return "!" + type(e).__name__
+for u in units:
+    out[u] = {"compat": _try(lambda: sorted(next(iter(x._units)) for x in reg.get_compatible_units(u))), "root": _try(lambda: repr(reg.get_root_units(u))),
+              "dim": _try(lambda: repr(dict(reg.get_dimensionality(u)))), "parse": _try(lambda: repr(dict(reg.parse_units("kilo" + u + "/" + units[0])._units))),
+              "conv": _try(lambda: repr(reg.Quantity(3, u).to_root_units())), "base": _try(lambda: repr(reg.get_base_units(u)))}
 print(json.dumps(out))
 """
 
@@ -612,6 +675,20 @@ def case_xcache(case, col=None):
             with open(defs, "w") as fh:
                 fh.write("\n".join(lines) + "\n")
             units = ["xm", "foo", "bar", "baz", "spd", "gfoo"]
+        if case["source"] == "lines":
+            # registries built from an iterable of lines (no file name) that share one cache folder: first another definition set with the same
+            # names fills the folder, then the set under test is loaded cold and warm
+            lines = ["xm = [xlen]", "xs = [xtime]", "kilo- = 1000", "foo = 3 * xm = fo", "bar = 5 * foo", "baz = 2 * xs", "spd = 9 * xm / xs", "@group ga", "    gfoo = 11 * xm", "@end"]
+            other = ["xm = [xlen]", "xs = [xtime]", "kilo- = 1000", "foo = 4 * xm = fo", "bar = 7 * foo * xm", "baz = 6 * xs", "spd = 2 * xm / xs", "@group ga", "    gfoo = 13 * xm", "@end", "extra = 2 * xm"]
+            for nm, ls in (("defs.txt", lines), ("other.txt", other)):
+                with open(os.path.join(work, nm), "w") as fh:
+                    fh.write("\n".join(ls) + "\n")
+            defs = "@" + os.path.join(work, "defs.txt")
+            units = ["xm", "foo", "bar", "baz", "spd", "gfoo"]
+            p = subprocess.run([sys.executable, "-c", _XCACHE_CODE, os.path.join(work, "cache"), "@" + os.path.join(work, "other.txt")], input=json.dumps(units), capture_output=True, text=True,
+                               env=dict(os.environ, PYTHONHASHSEED="4"), timeout=600)
+            if p.returncode != 0:
+                raise RuntimeError(p.stderr[-500:])
         answers = []
         for i, hs in enumerate(case["hashseeds"]):
             envv = dict(os.environ, PYTHONHASHSEED=str(hs))
@@ -634,7 +711,7 @@ def case_xcache(case, col=None):
 
 
 def run_xcache(task, tier, seed, col):
-    for src in ("bundled", "generated"):
+    for src in ("bundled", "generated", "lines"):
         col.run_case(lambda c: case_xcache(c, col), {"source": src, "units": ["meter", "second", "newton", "inch", "radian", "byte"], "hashseeds": [3, 1 + seed % 5, 7, 11]})
 
 
@@ -647,4 +724,6 @@ def run_task(task, tier, seed, col):
 def replay(sub, case):
     if sub == "xcache":
         return case_xcache(case)
+    if sub == "faults" and "ask_before" in case:
+        return case_refused_redefinition(case)
     return {"bundled": case_bundled, "generated": case_generated, "faults": case_fault}[sub](case)
